@@ -4,7 +4,7 @@ CONSTANTS
   NSpot = 15
   NTime = 7
   NVol = 7
-  NStrike = 5
+  NStrike = 6
   NMax = 5
 INVARIANT Emit
 CHECK_DEADLOCK FALSE
